@@ -209,19 +209,39 @@ Proof.
 Qed.
 
 (* the un-normalised multiset kernel, pointwise *)
-Lemma multi_raw_is_map : forall b R m s, m < length doc -> s < msize doc m ->
+Definition m_raw0 (b : block K) (m s q s' : nat) : K :=
+  if (dist m q <? b_off b) || is_mask (b_mask b) (mtok doc q s') || (Nat.eqb q m && Nat.eqb s' s)
+  then zero else b_kf b (dist m q).
+
+Lemma multi_raw0_is_map : forall b R m s, m < length doc -> s < msize doc m ->
   upd (multi_fill (b_kf b) (b_mask b) (b_off b) 0 (multi_window doc R m (b_rev b))) s zero
-  = map (fun qs => m_raw doc b m s (fst qs) (snd qs)) (mpairs doc (mwin b R m)).
+  = map (fun qs => m_raw0 b m s (fst qs) (snd qs)) (mpairs doc (mwin b R m)).
 Proof.
   intros b R m s Hm Hs. rewrite multi_window_positions by assumption.
   change (m :: win_positions (b_rev b) R m (length doc)) with (mwin b R m).
   rewrite (multi_fill_map _ _ _ doc (dist m) (mwin b R m) 0) by (apply mwin_dist).
   rewrite (upd_map_pointwise _ _ pair_eqb _ _ (0, 0)); [| apply pair_eqb_spec | apply mpairs_NoDup, mwin_NoDup | apply mpairs_length_own; assumption].
   rewrite mpairs_nth_own by assumption.
-  apply map_ext. intros [q s']. unfold pair_eqb, m_raw, fillv. simpl fst. simpl snd.
+  apply map_ext. intros [q s']. unfold pair_eqb, m_raw0, fillv. simpl fst. simpl snd.
   destruct (Nat.leb_spec (b_off b) (dist m q)); destruct (Nat.ltb_spec (dist m q) (b_off b)); try lia; simpl;
     destruct (is_mask (b_mask b) (mtok doc q s')); simpl;
     destruct (Nat.eqb q m && Nat.eqb s' s); reflexivity.
+Qed.
+
+(* ... and a target that is the nullified mask has an all-zero kernel *)
+Lemma multi_raw_is_map : forall b R m s, m < length doc -> s < msize doc m ->
+  multi_raw (b_kf b) (b_mask b) (b_off b) (multi_window doc R m (b_rev b)) s
+  = map (fun qs => m_raw doc b m s (fst qs) (snd qs)) (mpairs doc (mwin b R m)).
+Proof.
+  intros b R m s Hm Hs. unfold multi_raw. rewrite multi_raw0_is_map by assumption.
+  assert (Hhd : nth s (hd [] (multi_window doc R m (b_rev b))) 0 = mtok doc m s).
+  { rewrite multi_window_positions by assumption. reflexivity. }
+  rewrite Hhd. unfold m_raw, m_raw0.
+  destruct (b_mask b) as [mk|]; simpl is_mask.
+  - destruct (Nat.eqb (mtok doc m s) mk) eqn:E.
+    + rewrite map_map. apply map_ext. intros [q s']. cbn [fst snd]. rewrite orb_true_r. reflexivity.
+    + apply map_ext. intros [q s']. cbn [fst snd]. rewrite orb_false_r. reflexivity.
+  - apply map_ext. intros [q s']. cbn [fst snd]. rewrite !orb_false_r. reflexivity.
 Qed.
 
 Lemma multi_kernel_is_map : forall b R m s, m < length doc -> s < msize doc m ->
